@@ -96,8 +96,14 @@ class Ctx(object):
         self.classes.add(key if isinstance(key, str) else json.dumps(key, sort_keys=True))
 
     def sample(self, s):
+        def trim(x):
+            if isinstance(x, list):
+                return [trim(y) for y in x[:12]] + (["...(%d more)" % (len(x) - 12)] if len(x) > 12 else [])
+            if isinstance(x, dict):
+                return {k: trim(v) for k, v in x.items()}
+            return x
         if len(self.cov["samples"]) < 6:
-            self.cov["samples"].append(s)
+            self.cov["samples"].append(trim(s))
 
     # ---- failures
     def report(self, item, replay):
